@@ -42,4 +42,52 @@ inductive CapSecTag where
   | U8 | U16 | U32 | U64 | I64 | Null | F64 | Bitvec | Lz4 | Pco
   deriving DecidableEq, Repr, Inhabited
 
+/-- `event_buffer::ColumnData` (tags). -/
+inductive ColTag where
+  | Empty | Dense | Sparse | I64 | SparseI64 | String | Mixed
+  deriving DecidableEq, Repr, Inhabited
+
+/-- Union members of `Column.data` in wal_segment.capnp. -/
+inductive CapColTag where
+  | F64 | SparseF64 | I64 | String | Empty | SparseI64 | Mixed
+  deriving DecidableEq, Repr, Inhabited
+
+/-- `api::AnyVal` (tags). -/
+inductive AnyTag where
+  | Int | Float | Str | Null
+  deriving DecidableEq, Repr, Inhabited
+
+/-- Union members of `AnyVal.value` in wal_segment.capnp. -/
+inductive CapAnyTag where
+  | F64 | I64 | String | Null
+  deriving DecidableEq, Repr, Inhabited
+
+/-! Names under which the schema files declare these members, in declaration order (compared with the regenerated
+    `Gen/SchemaTables.lean` by `C14_schema_matches_model`). -/
+
+def CapEnc.all : List CapEnc := [.U8, .U16, .U32, .U64, .I64, .Null, .F64, .Bitvec]
+def CapEnc.schemaEntry : CapEnc → String × String
+  | .U8 => ("u8", "0") | .U16 => ("u16", "1") | .U32 => ("u32", "2") | .U64 => ("u64", "3") | .I64 => ("i64", "4")
+  | .Null => ("null", "5") | .F64 => ("f64", "6") | .Bitvec => ("bitvec", "7")
+
+def CapOpTag.all : List CapOpTag :=
+  [.Add, .Delta, .ToI64, .PushDataSection, .DictLookup, .Lz4, .UnpackStrings, .UnhexpackStrings, .Nullable, .Pco]
+def CapOpTag.member : CapOpTag → String
+  | .Add => "add" | .Delta => "delta" | .ToI64 => "toI64" | .PushDataSection => "pushDataSection" | .DictLookup => "dictLookup"
+  | .Lz4 => "lz4" | .UnpackStrings => "unpackStrings" | .UnhexpackStrings => "unhexpackStrings" | .Nullable => "nullable" | .Pco => "pco"
+
+def CapSecTag.all : List CapSecTag := [.U8, .U16, .U32, .U64, .I64, .Null, .F64, .Bitvec, .Lz4, .Pco]
+def CapSecTag.member : CapSecTag → String
+  | .U8 => "u8" | .U16 => "u16" | .U32 => "u32" | .U64 => "u64" | .I64 => "i64" | .Null => "null" | .F64 => "f64"
+  | .Bitvec => "bitvec" | .Lz4 => "lz4" | .Pco => "pco"
+
+def CapColTag.all : List CapColTag := [.F64, .SparseF64, .I64, .String, .Empty, .SparseI64, .Mixed]
+def CapColTag.member : CapColTag → _root_.String
+  | .F64 => "f64" | .SparseF64 => "sparseF64" | .I64 => "i64" | .String => "string" | .Empty => "empty"
+  | .SparseI64 => "sparseI64" | .Mixed => "mixed"
+
+def CapAnyTag.all : List CapAnyTag := [.F64, .I64, .String, .Null]
+def CapAnyTag.member : CapAnyTag → _root_.String
+  | .F64 => "f64" | .I64 => "i64" | .String => "string" | .Null => "null"
+
 end LM.Segment
